@@ -42,6 +42,7 @@ class _Future(Future):
         super(_Future, self).__init__()
         self._me_done_callbacks = []
         self._me_lock = RLock()
+        self._me_cancelling = False
 
     def _me_invoke_callbacks(self):
         for callback in self._me_done_callbacks:
@@ -70,14 +71,31 @@ class _Future(Future):
                 return True
             if self.done():
                 return False
-            if not self._me_cancel():
-                return False
+            self._me_cancelling = True
+            try:
+                if not self._me_cancel():
+                    return False
+            finally:
+                self._me_cancelling = False
             out = super(_Future, self).cancel()
             if out:
                 self.set_running_or_notify_cancel()
         if out:
             self._me_invoke_callbacks()
         return out
+
+    def _me_delegate_cancelled(self):
+        # The future we depend on was cancelled by someone other than us:
+        # we can never be resolved from it, so end up cancelled as well
+        # rather than pending forever.
+        with self._me_lock:
+            if self._me_cancelling or self.done():
+                # Our own cancel() is in progress (and will complete the
+                # cancellation), or there's nothing left to do.
+                return
+            super(_Future, self).cancel()
+            self.set_running_or_notify_cancel()
+        self._me_invoke_callbacks()
 
     def _me_cancel(self):
         raise NotImplementedError(
